@@ -192,7 +192,7 @@ impl<C: Suite> Model for M06<C> {
                 }
                 for i in 0..n {
                     // quick tier: every position up to n = 17, selected positions for the two large lists
-                    if !self.tier.thorough() && n > 17 && !(i < 2 || i == n / 2 || i + 2 >= n) {
+                    if (!self.tier.thorough() || n > NMAX) && n > 17 && !(i < 2 || i == n / 2 || i + 2 >= n) {
                         continue;
                     }
                     a.push(Act::Edit(Edit::AlterMsg(i)));
@@ -212,7 +212,7 @@ impl<C: Suite> Model for M06<C> {
                     }
                 } else {
                     for i in 0..n - 1 {
-                        if !self.tier.thorough() && n > 17 && !(i < 2 || i + 3 >= n) {
+                        if (!self.tier.thorough() || n > NMAX) && n > 17 && !(i < 2 || i + 3 >= n) {
                             continue;
                         }
                         a.push(Act::Edit(Edit::SwapMsgs(i, i + 1)));
